@@ -115,6 +115,21 @@ Example C18_example_hostile :
   /\ node_at (snd (untar R0 [MReg "/p/sentinel.txt" "x"] st0)) ("sentinel.txt" :: "p" :: R0) = Some (NFile 4).
 Proof. vm_compute. repeat split. Qed.
 
+(* on POSIX a back slash is an ordinary character of a file name: names are split on "/" only.  A member named
+   `..\escaped.txt` is ONE component, holds no "..", and is extracted as one oddly named file inside R; so is
+   `a\..\..\sentinel.txt`; a link target `..\outdir` is a plain (here dangling) name in the same directory *)
+Example C18_example_backslash_is_a_name_character :
+  let r := untar R0 [MReg "..\escaped.txt" "x"; MReg "a\..\..\sentinel.txt" "boom"; MDir "dir\sub"; MSym "l" "..\outdir"] st0 in
+  fst r = OOk
+  /\ comps "a\..\..\sentinel.txt" = ["a\..\..\sentinel.txt"]
+  /\ node_at (snd r) ("..\escaped.txt" :: R0) = Some (NFile 4)
+  /\ node_at (snd r) ("a\..\..\sentinel.txt" :: R0) = Some (NFile 5)
+  /\ node_at (snd r) ("dir\sub" :: R0) = Some NDir
+  /\ node_at (snd r) ("l" :: R0) = Some (NSym "..\outdir")
+  /\ node_at (snd r) ["escaped.txt"; "p"] = None
+  /\ lookup 2 (files (snd r)) = Some {| f_data := "precious"; f_orw := true |}.
+Proof. vm_compute. repeat split. Qed.
+
 (* "no link inside R points outside R" is NOT an invariant of the extraction (CPython 3.12 re-creates a link
    at another depth when a hard link names a dangling symbolic link): after these two accepted members
    R/out -> ../outdir leaves R.  Confinement does not rest on such an invariant: the third member, which would
